@@ -388,6 +388,14 @@ def _config_strategy(nan_stream: bool = False):
         shapes = [draw(st.sampled_from([[3, 2], [2, 2], [4], [2, 3, 2], [5, 3], [2], [1, 3], [6, 2]])) for _ in range(n)]
         if draw(st.booleans()):
             shapes[1] = list(shapes[0])
+        if not nan_stream and draw(st.sampled_from([False] * 4 + [True])):
+            # forced class: a block that owns no Kronecker factor (all of its dims ignored) stands *before* blocks that do, so that positions in the list
+            # of active blocks and positions in the list of blocks with factors differ
+            pc["ignored"] = [0]
+            cfg["override"], cfg["merge"], cfg["mpd"] = 0, False, max(mpd, 4)
+            shapes = [draw(st.sampled_from([[3], [4], [2]]))] + [draw(st.sampled_from([[3, 2], [2, 2], [2, 3, 2]])) for _ in range(draw(st.integers(1, 2)))]
+            if draw(st.booleans()):
+                shapes.insert(1, draw(st.sampled_from([[3], [2]])))
         return {"cfg": cfg, "shapes": shapes, "pseed": draw(st.integers(0, 10**4)), "nan_stream": nan_stream}
 
     return config()
@@ -431,9 +439,17 @@ def step_strategy(runner: Runner):
 
     @st.composite
     def step(draw: Any) -> dict:
-        mode = draw(st.sampled_from(["all", "stay", "stay", "flip", "flip", "random", "none"]))
+        factorless = sorted({pi for pi, _, nf in runner.blocks if nf == 0})
+        mode = draw(st.sampled_from(["all", "stay", "stay", "flip", "flip", "random", "none"] + (["toggle_factorless"] * 3 if factorless else [])))
         if mode == "stay" and prev is not None:
             mask = list(prev)
+        elif mode == "toggle_factorless":
+            # a block that never fails itself (it has nothing to compute) enters or leaves the active set between two refreshes of the others
+            mask = list(prev) if prev is not None else [True] * n
+            i = factorless[draw(st.integers(0, len(factorless) - 1))]
+            mask[i] = not mask[i]
+            if not any(mask):
+                mask[-1] = True
         elif mode == "flip" and prev is not None:
             mask = list(prev)
             i = draw(st.integers(0, n - 1))
